@@ -143,6 +143,22 @@ CLAIMED["C24"] = dict(
     note="Floating point is outside: the property's clause that float-to-integer conversion truncates toward zero is NOT covered (no symbolic float domain; by reading, ir2py uses int(round(x))). Also outside: blob loads/stores, CopyBlob, JumpTable, indirect calls, external variables. Loops unwound to 140 (300) IR instructions; longer paths are cut and counted. Pointer width 32 bits; the reference is evaluated under the generated code's heap address map. Runtime helpers correct/idiv/irem are recompiled from the GENERATED source with pure ifs merged (symx.ifconv); every path is re-validated concretely on the untouched code.",
     technique=TECH_TV)
 
+CLAIMED["C05"] = dict(
+    level="translation_validation", design="§4 C05",
+    text="RISC-V only (rv32im, with and without rvc). Per program of a stated family (C corpus, 26 ABI/frame shapes, x op K with boundary constants, every narrow IR operator and cast on i8..u32, frame sizes around 2 KiB) and optimisation level (quick: 0 and 2; thorough: 0/1/2/s x {rv32im, rv32imc}) the real front end, optimizer, code generator and linker run concretely; the LINKED BYTES are executed symbolically on a manual-derived RV32IMC model (ref/rv32.py) from the function entry with symbolic argument registers, all other registers and memory, next to the reference semantics of the IR that was compiled. The solver proves, per path and for all inputs: equal return value, final globals and buffers, external call trace, restored sp/fp/callee-saved registers and an untouched caller stack; back-end exceptions count as 'no code produced'.",
+    note="RISC-V only: ARM, Thumb, m68k, mips, x86_64 are unclaimed (no ISA model available here). Trusted: z3, ref/rv32.py (validated under C08), ref/irsem.py + ref/irsem_u.py (allocas indeterminate until written), the engine; every path cross-checks the z3 machine semantics against an integer implementation. The calling convention is taken from ppci's own determine_arg_locations / determine_rv_location / callee_save. Loops and recursion unwound to 400 instructions (cut paths counted, not claimed). Outside: floats, 64-bit integers, struct-by-value arguments, externals that modify caller-visible memory; one known finding (locals beyond ~2 KiB: 'FPRELU32 not covered').",
+    technique=TECH_TV)
+CLAIMED["C22"] = dict(
+    level="translation_validation", design="§4 C22",
+    text="Translation validation of ppci's WebAssembly execution (integer subset) against a reference interpreter written from the Core Specification (ref/wasmsem.py, self-tested on 162 spec boundary points). For every module of the stated families (one function per integer instruction x type, comparison consumers, control-flow templates to nesting depth 3 with br/br_if/br_table/return and value-carrying blocks, locals/globals, loads/stores of every width at symbolic address + offset incl. the out-of-bounds boundary, direct/indirect/host calls, start function, re-translation of the same Module) both the real instantiate(target='python') pipeline (generated code + IrPy runtime + real runtime.py helpers on proxies) and the real wasm_to_ir output (on ref/irsem.py) are executed with symbolic arguments, globals and memory bytes; the solver decides equality of traps, results, globals, memory (symbolic probe address) and host-call trace on every path.",
+    note="Integer subset only: no floats, no native-code target (needs real x86-64 execution), no wasmtime (the specification is the reference). Any exception on ppci's side counts as a trap. Known findings: linear memory is not bounds-checked (address wrap aliases other data), call_indirect performs no index/null/type check. Outside: memory.grow, bulk/table instructions, executions beyond 400 wasm / 1500 IR steps.",
+    technique=TECH_TV)
+CLAIMED["C23"] = dict(
+    level="translation_validation", design="§4 C23",
+    text="Translation validation of the real IR-to-WebAssembly compiler (IrToWasmCompiler, relooper) on C-front-end output at O0/O1/O2 (corpus + 26 extra programs) and on all 2-/3-block CFG skeletons plus 60 (thorough 600) sampled 4-block ones: the generated module is run by the wasm reference semantics next to the IR reference semantics on symbolic arguments and memory; result, global and buffer memory, external call trace, no-trap and termination are proven equal on every path under the IR-defined premise.",
+    note="Modules the compiler rejects with an error (about a quarter of the corpus) are counted, not claimed. Only the low bits of the IR type in returned values are compared. Known findings: narrow (i8/i16) and u32 values are never normalised, the structure detector silently drops CFG edges for some skeletons (exact harness names listed). Outside: floats, function pointers.",
+    technique=TECH_TV)
+
 NOT_APPLICABLE = {
     "C04": "property is about native execution of whole gcc/ppci-compiled programs; no x86-64 semantics model is in reach and running binaries is enumeration of concrete runs, not solver-based checking",
     "C06": "dataflow property over uninterpreted instruction semantics: a checker would be tag propagation in which a solver decides nothing",
